@@ -14,7 +14,9 @@ LEVEL_TEXT = ("Theorems by induction on the script: both read paths fill the buf
               "a connection error (or the rejection of a frame being thrown away), never a delivery. Every run re-checks the proofs and compares model and property with the real code.")
 LEVEL_NOTE = ("Trusted: Coq kernel + vm_compute; the hand model Frame/Reader.v (tied by the differential only); the kernel's recvmsg is modelled as 'hands over any positive prefix, "
               "scattered over the iovecs in order' -- real coalescing on the socket is sampled, not controlled. Generic path: theorems need every scripted Read to hand over >= 1 byte "
-              "(a split of the stream); a (0, nil) Read inside a body is turned into io.EOF by vecnet (modelled, compared, reported as a note, outside the property's quantifier).")
+              "(a split of the stream); vecnet deliberately treats a (0, nil) Read inside a body as the end of the stream (decision of the maintainers: fixes/C17-zero-read not applied); a split of a stream into reads "
+              "has non-empty reads, so such scripts are outside the property's quantifier: the behaviour is modelled (zero_eof), compared by the differential (zero-read cases) and covered by "
+              "C17_generic_safe (the answer is the flat one or a connection error, never another message).")
 DESIGN_REF = "6/C17"
 ASSUMPTIONS = [
     "recvmsg hands over a positive prefix of the available bytes, filling the iovecs in order; 0 bytes only at end of stream (EAGAIN is retried by RawConn.Read)",
